@@ -140,9 +140,9 @@ class DWTInverse(nn.Module):
 
             # 'Unpad' added dimensions
             if ll.shape[-2] > h.shape[-2]:
-                ll = ll[...,:-1,:]
+                ll = ll[...,:h.shape[-2],:]
             if ll.shape[-1] > h.shape[-1]:
-                ll = ll[...,:-1]
+                ll = ll[...,:h.shape[-1]]
             ll = lowlevel.SFB2D.apply(
                 ll, h, self.g0_row, self.g1_row, self.g0_col, self.g1_col, mode)
         return ll
